@@ -4,7 +4,7 @@
 // C38  LP staking rewards: the GT reward amount  (programs/liquidity-provider/src/lib.rs ::
 //      calculate_gt_reward_amount; private free function, extracted by text)
 //      and compute_time_weighted_apy (the `.iter().take(n)` loop through rule R9).
-//      NOT covered here: unstake paths.
+//      The unstake handler: verus/C38_unstake.rs.
 // =================================================================================================
 //@const programs/liquidity-provider/src/lib.rs :: APY_BUCKETS_U8 :: u8 = 53
 //@const programs/liquidity-provider/src/lib.rs :: APY_LAST_INDEX_U8 :: u8 = APY_BUCKETS_U8 - 1
